@@ -166,3 +166,196 @@ Theorem C01_interval_capacity_examples :
   ivl_load_feasible 2 ex_two_trips = true /\ load_feasible 2 ex_two_trips = false
   /\ ivl_load_feasible 2 ex_carry = false /\ ivl_loads_of ex_carry = [1; 0; 1; 3; 2; 1; 0; 0].
 Proof. split; [apply ex_two_trips_ok|]. split; [apply ex_two_trips_ok|]. exact ex_carry_overloaded. Qed.
+
+(* ---------------------------------------------------------------------------------------------------------------------------
+   ROUND FOUR of the end-to-end checker (Spec/ValidX.v): REPLACEMENT tasks (jobs.md "Replacement job": "a new good to be loaded
+   at the beginning of the journey and old replaced one brought to journey's end").  Valid.demand_of gives a replacement
+   activity the static delivery AND the static pickup of its demand; what that means for the capacity rule: the checker's
+   verdict (per reload interval) on a tour is its verdict on the tour in which every replacement activity is replaced by a
+   static delivery directly followed by a static pickup at the same place - for ANY tour and capacity *)
+From VRP Require Import Spec.ValidX Proofs.ValidXP.
+
+Theorem C01_replacement_is_delivery_then_pickup : forall cap t,
+  ivl_load_feasible cap (split_repl t) = ivl_load_feasible cap t.
+Proof. exact split_load_feasible. Qed.
+
+(* non-vacuity / witness: static pickup of 1, then a replacement of 4: the loads are 4, 5, 5, 5 (split: 4, 5, 1, 5, 5), so
+   capacity 5 is enough and capacity 4 is not - although the replacement "delivers" 4 *)
+Theorem C01_replacement_capacity_example :
+  ivl_load_feasible 5 ex_repl_tour = true /\ ivl_load_feasible 4 ex_repl_tour = false
+  /\ ivl_loads_of ex_repl_tour = [4; 5; 5; 5]
+  /\ ivl_loads_of (split_repl ex_repl_tour) = [4; 5; 1; 5; 5].
+Proof. exact ex_replacement_capacity. Qed.
+
+(* ---------------------------------------------------------------------------------------------------------------------------
+   STEP LEVEL for tour limits, tour size, skills and locks (so far judged on whole solver outputs only): Model/Limits.v
+   (tour_limits.rs, travel_info.rs, skills.rs, locked_jobs.rs), the extended simulation Spec/FeasibleX.v, Proofs/LimitsP.v; tied
+   to the code by the C06 sub-stream `c06_limits`.  (The imports are local to this section: both Spec/Valid.v and
+   Spec/FeasibleX.v define `zmem`.) *)
+From VRP Require Spec.FeasibleX Model.Eval Model.Limits Proofs.LimitsP Proofs.LimitsValidP.
+Section C01_limits_step.
+Import FeasibleX Eval Limits LimitsP LimitsValidP.
+
+(* the quantities of the step-level notion ARE the quantities the end-to-end checker (Valid.feasible_viol: FMaxDistance,
+   FMaxDuration, FSkills; the tour size is the number of job activities in both) evaluates on returned documents *)
+Theorem C01_limits_checker_agrees_with_step_spec :
+  (forall m t, tour_legs m t = tour_distance m t) /\
+  (forall dur t, replay_duration dur t = tour_duration dur t) /\
+  (forall x lim, le_opt x lim = le_lim x lim) /\
+  (forall vt job, skills_ok vt job = skills_sat_b (vt_skills vt) (mkReq (pj_skills job) (pj_one job) (pj_none job))).
+Proof. exact (conj tour_legs_is_tour_distance (conj replay_duration_is_tour_duration (conj le_opt_is_le_lim skills_ok_is_skills_sat_b))). Qed.
+
+(* every insertion the evaluator answers with success keeps the tour feasible INCLUDING max distance, max duration, tour size and
+   the skills of every job on board: any matrix, open / closed tours, any number of places and windows, any position mode *)
+Theorem C01_accepted_insertion_feasible_x : forall dur dist g v shift_start closed req t j js pos idx pl c,
+  goodx dur dist g v closed req t -> simple_demand (s_dem j) -> 0 <= s_id j -> req (s_id j) = req_of js ->
+  eval_single_x dur dist g v shift_start closed t j js pos = ESuccess idx pl c ->
+  (idx < leg_count closed t)%nat /\
+  FeasibleX dur dist v (g_lim g) (olist (g_vskills g)) req (insert_after t idx (place_act j pl)).
+Proof. exact eval_single_x_sound. Qed.
+
+(* construction: any number of accepted evaluations of jobs outside the strict rules, each really applied (insert + schedule
+   refresh), keeps the tour feasible in that sense AND keeps every strict block contiguous, ordered and anchored *)
+Theorem C01_construction_feasible_x : forall dur dist g v shift_start closed req t t',
+  ins_history_xl dur dist g v shift_start closed req t t' ->
+  goodx dur dist g v closed req t /\ locks_ok g t -> goodx dur dist g v closed req t' /\ locks_ok g t'.
+Proof. exact construction_good_xl. Qed.
+
+(* relation pinning, vehicle: a job whose lock does not allow the tour's actor is never accepted *)
+Theorem C01_lock_condition_sound : forall dur dist g v shift_start closed t j js pos idx pl c,
+  eval_single_x dur dist g v shift_start closed t j js pos = ESuccess idx pl c -> zassoc (s_id j) (g_conds g) <> Some false.
+Proof. exact lock_condition_sound. Qed.
+
+(* the merge rule of the skills feature (vicinity clustering folds a candidate into a cluster that keeps the SOURCE's skills):
+   without a oneOf requirement of the candidate every vehicle allowed for the source is allowed for the candidate ... *)
+Theorem C01_skills_merge_sound_without_one_of : forall vs src cand,
+  merge_skills src cand = true -> SkillsSat vs (req_of src) -> r_one (req_of cand) = [] -> SkillsSat vs (req_of cand).
+Proof. exact merge_skills_sound_without_one_of. Qed.
+
+(* ... with one it need not be: the rule wants candidate.oneOf to be a SUBSET of source.oneOf (source {1,2}, candidate {1}: a
+   vehicle with skill 2 serves the cluster, the candidate's oneOf [1] is not met).  Replayed on the real
+   `SkillsConstraint::{merge, evaluate}` (c06_limits corpus case 8); reaching it end to end needs vicinity clustering, which the
+   end-to-end generator does not produce *)
+Theorem C01_skills_merge_one_of_refuted : exists vs src cand,
+  merge_skills src cand = true /\ eval_route_skills vs src = None /\ SkillsSat (olist vs) (req_of src) /\
+  eval_route_skills vs cand = Some (CODE_SKILLS, true) /\ ~ SkillsSat (olist vs) (req_of cand).
+Proof. exact merge_skills_one_of_refuted. Qed.
+
+(* non-vacuity: see C06_limits_nonvacuous (a vehicle with all limits, skills and a strict lock; a history of two insertions) *)
+Theorem C01_limits_nonvacuous :
+  let w := w4 (Some 0) in
+  goodx (wdur w) (wdist w) nv_goal (w_veh w) true nv_req nv_t0 /\ locks_ok nv_goal nv_t0 /\
+  exists t2, ins_history_xl (wdur w) (wdist w) nv_goal (w_veh w) 0 true nv_req nv_t0 t2 /\
+             tour_distance (wdist w) t2 = 40 /\ job_count t2 = 3%nat /\ served t2 = [1; 9; 8].
+Proof. exact limits_nonvacuous. Qed.
+
+End C01_limits_step.
+
+(* =============================================================================================================================
+   CAPACITY PER RELOAD INTERVAL, step level (multi-trip / multi-dimensional capacity code: Model/CapacityMT.v, lemmas
+   Proofs/CapacityMTP.v, correspondence sub-stream c06_multitrip of C06).  The statement is Spec.Intervals.IvlOk above, one per
+   capacity dimension.  (The imports are local to this section.) *)
+From VRP Require Model.CapacityMT Proofs.CapacityMTP.
+Section C01_multitrip.
+Import Model.CapacityMT Proofs.CapacityMTP Proofs.CoreEvalP.
+
+(* every insertion the multi-trip capacity constraint accepts keeps the load within the capacity in every reload interval:
+   SingleDimLoad ... *)
+Theorem C01_mt_accepted_insertion_keeps_intervals_single : forall t cap idx x,
+  mt_tour_ok SingleOps t ->
+  IvlOk cap 0 (ivls (proj_tour SingleOps get_single t)) ->
+  (idx < length t)%nat -> is_marker_act SingleOps x = false ->
+  simple_demand (a_dem (proj_act SingleOps get_single x)) ->
+  (ga_multi x = false -> d_pd (a_dem (proj_act SingleOps get_single x)) = 0) ->
+  mt_evaluate_activity SingleOps PolicyLast (accept_route_state SingleOps true (Some cap) t) idx x = None ->
+  IvlOk cap 0 (ivls (proj_tour SingleOps get_single (ginsert_after t idx x))).
+Proof. exact mt_insertion_sound_single. Qed.
+
+(* ... and MultiDimLoad, in every capacity dimension *)
+Theorem C01_mt_accepted_insertion_keeps_intervals_multi : forall t cap idx x,
+  mt_tour_ok MultiOps t -> ml_tour_wf t -> act_wf MultiOps ml_wf x -> ml_wf cap ->
+  (idx < length t)%nat -> is_marker_act MultiOps x = false ->
+  mt_evaluate_activity MultiOps PolicyLast (accept_route_state MultiOps true (Some cap) t) idx x = None ->
+  forall d, (d < LOAD_DIMENSION_SIZE)%nat ->
+    IvlOk (ml_get cap d) 0 (ivls (proj_tour MultiOps (get_dim d) t)) ->
+    simple_demand (a_dem (proj_act MultiOps (get_dim d) x)) ->
+    (ga_multi x = false -> d_pd (a_dem (proj_act MultiOps (get_dim d) x)) = 0) ->
+    IvlOk (ml_get cap d) 0 (ivls (proj_tour MultiOps (get_dim d) (ginsert_after t idx x))).
+Proof. exact mt_insertion_sound_multi. Qed.
+
+(* inserting a reload (a marker job without demand) anywhere keeps it too: the interval is split in two, no load grows *)
+Theorem C01_mt_reload_insertion_keeps_intervals : forall O get wf, load_hom O get wf -> forall t cap idx m,
+  IvlOk (get cap) 0 (ivls (proj_tour O get t)) -> (idx < length t)%nat ->
+  is_marker_act O m = true -> ga_dem m = None -> static_amounts_nonneg (proj_tour O get t) ->
+  IvlOk (get cap) 0 (ivls (proj_tour O get (ginsert_after t idx m))).
+Proof. exact (fun O get wf _ => mt_marker_insertion_sound_dim O get). Qed.
+
+(* non-vacuity / witness: see C06_mt_nonvacuous (two intervals, two dimensions, a shipment carried across the reload: 2 more are
+   accepted in front of the reload, 3 more are rejected because of the interval BEHIND it) *)
+Theorem C01_mt_nonvacuous :
+  (forall d, (d < LOAD_DIMENSION_SIZE)%nat -> IvlOk (ml_get ex_mt_cap d) 0 (ivls (proj_tour MultiOps (get_dim d) ex_mt_tour))) /\
+  mt_evaluate_activity MultiOps PolicyLast (accept_route_state MultiOps true (Some ex_mt_cap) ex_mt_tour) 1 (ex_mt_pick [2; 1]) = None /\
+  mt_evaluate_activity MultiOps PolicyLast (accept_route_state MultiOps true (Some ex_mt_cap) ex_mt_tour) 1 (ex_mt_pick [3; 1]) = Some false.
+Proof. exact (conj (proj1 (proj2 (proj2 (proj2 (proj2 ex_mt_facts))))) (conj (proj1 (proj2 (proj2 (proj2 (proj2 (proj2 (proj2 ex_mt_facts))))))) (proj1 (proj2 (proj2 (proj2 (proj2 (proj2 (proj2 (proj2 (proj2 ex_mt_facts))))))))))). Qed.
+
+(* remove_trivial_markers (run by accept_solution_state, also at the end of a plain construction): when the obsolete-interval
+   test of the reload feature (max-future load of the left interval + static deliveries of the right one, max-future load of the
+   right interval + static pickups of the left one, both within the capacity) lets a reload go, every interval of the tour without
+   that reload satisfies the capacity statement - in the dimension `get` of any load type *)
+Theorem C01_mt_trivial_marker_removal_keeps_intervals : forall O get wf, load_hom O get wf -> forall t cap i,
+  mt_tour_ok O t -> tour_wf O wf t -> wf cap ->
+  IvlOk (get cap) 0 (ivls (proj_tour O get t)) ->
+  trivial_marker O (accept_route_state O true (Some cap) t) = Some i ->
+  IvlOk (get cap) 0 (ivls (proj_tour O get (remove_at i t))).
+Proof. exact mt_trivial_marker_removal_sound_dim. Qed.
+
+(* multi-dimensional capacity without reloads: every accepted insertion keeps Spec.Feasible.load_feasible in each dimension (the
+   step-level counterpart of C01_capacity_every_dimension above) *)
+Theorem C01_md_accepted_insertion_feasible_every_dimension : forall t cap idx x,
+  mt_tour_ok MultiOps t -> ml_tour_wf t -> act_wf MultiOps ml_wf x -> ml_wf cap ->
+  forallb (fun b => negb (is_marker_act MultiOps b)) t = true ->
+  (idx < length t)%nat -> is_marker_act MultiOps x = false ->
+  mt_evaluate_activity MultiOps PolicyLast (accept_route_state MultiOps false (Some cap) t) idx x = None ->
+  forall d, (d < LOAD_DIMENSION_SIZE)%nat ->
+    load_feasible (ml_get cap d) (proj_tour MultiOps (get_dim d) t) = true ->
+    simple_demand (a_dem (proj_act MultiOps (get_dim d) x)) ->
+    (ga_multi x = false -> d_pd (a_dem (proj_act MultiOps (get_dim d) x)) = 0) ->
+    load_feasible (ml_get cap d) (proj_tour MultiOps (get_dim d) (ginsert_after t idx x)) = true.
+Proof. exact md_insertion_sound_no_reloads. Qed.
+
+End C01_multitrip.
+
+(* REQUIRED BREAKS (vehicles.md; Spec/ValidX.v part 2): "break time windows" of the statement for breaks that have no place.
+   The feasibility group that runs on every document (`feasible4`) evaluates every rule of Valid.feasible_viols /
+   xfeasible_viols on the tour WITHOUT its required-break activities, with the clock that skips the reported break intervals;
+   for a problem without required breaks it IS those two functions *)
+Theorem C01_no_required_breaks_is_feasible_viols : forall P S, feasible4 X0 P S = feasible_viols P S ++ xfeasible_viols P S.
+Proof. exact feasible4_X0. Qed.
+
+(* the clock (arrival = adv B departure travel-time, end of work = adv B start service-time) is sound and complete for its
+   declarative description *)
+Theorem C01_clock_sound_complete : forall B s d t, iv_ok B = true -> 0 <= d -> (adv B s d = t <-> AdvSpec B s d t).
+Proof. exact adv_iff. Qed.
+
+(* "guaranteed to be assigned": the checker reports nothing iff every required break of the tour's shift whose latest start lies
+   inside the tour's time span (departure <= latest < end of the last activity) is taken by some break activity of the tour *)
+Theorem C01_required_breaks_taken_checker_sound_complete : forall X S,
+  rb_missing_viols X S = [] <-> forall t, In t (sl_tours S) -> RBreaksTaken X t.
+Proof. exact rb_missing_viols_nil. Qed.
+
+(* the reserved time is used for nothing else: no FReservedTime iff every leg has its travel time and every activity its place's
+   duration OUTSIDE the break intervals *)
+Theorem C01_reserved_time_checker_sound_complete : forall dur B k l d0 i,
+  reserved_from dur B k i (fa_loc d0) (fa_end d0) l = [] <-> ReservedRespected dur B d0 l.
+Proof. exact (fun dur B k l d0 i => reserved_from_nil dur B k l d0 i). Qed.
+
+(* non-vacuity / witnesses: both example documents pass the whole checker; a break that is listed while the vehicle reaches the
+   next job as if it had not stopped is FReservedTime; the document without the break is exactly [FRequiredBreakMissing 0] *)
+Theorem C01_required_break_examples :
+  valid4 ex_Xq ex_P ex_Sq = [] /\ valid4 ex_Xt ex_P ex_St = []
+  /\ In (FReservedTime 0 1) (feasible4 ex_Xt ex_P ex_St_bad)
+  /\ feasible4 ex_Xq ex_P ex_S = [FRequiredBreakMissing 0].
+Proof.
+  split; [exact (proj1 ex_required_break)|]. split; [exact (proj1 (proj2 ex_required_break))|].
+  split; [exact (proj1 (proj2 (proj2 ex_required_break)))|exact (proj1 (proj2 (proj2 (proj2 ex_required_break))))].
+Qed.
